@@ -244,13 +244,16 @@ func c10SrvGenProxyPrefix(t *rapid.T) ([]byte, string) {
 			var val []byte
 			switch rapid.IntRange(0, 3).Draw(t, "proxy-tlv-kind") {
 			case 0:
-				typ, val = 0x04, make([]byte, rapid.IntRange(0, 20).Draw(t, "proxy-noop"))
+				typ, val = 0x04, make([]byte, rapid.OneOf(rapid.IntRange(0, 20), rapid.SampledFrom([]int{4040, 4064, 4065, 4066, 8200, 65000})).Draw(t, "proxy-noop"))
 			case 1:
 				typ, val = 0x02, []byte("broker.kafka.example.com")
 			case 2:
 				typ, val = 0xEA, append([]byte{0x01}, "vpce-08d2bf15fac5001c9"...)
 			default:
 				typ, val = 0x05, rapid.SliceOfN(rapid.Byte(), 1, 16).Draw(t, "proxy-tlv-val")
+			}
+			if len(block)+3+len(val) > 65535 {
+				continue // the v2 length field is 16 bits
 			}
 			block = append(append(block, typ, byte(len(val)>>8), byte(len(val))), val...)
 			kind = "v2-valid+tlv"
